@@ -33,6 +33,17 @@ class Obj:
     def __repr__(self):
         return f'{self.kind}({", ".join(f"{k}={v!r}" for k, v in self.fields.items() if not callable(v))})'
 
+    # `==` on a stand-in is what the caller says the real class's `==` is (field `eq`), else identity
+    def __eq__(self, other):
+        f = self.fields.get('eq')
+        return f(self, other) if f is not None else self is other
+
+    def __ne__(self, other):
+        return not self.__eq__(other)
+
+    def __hash__(self):
+        return id(self)
+
 
 class _Return(Exception):
     def __init__(self, value):
